@@ -171,10 +171,11 @@ PROPS['C12'] = {
                   ('acr.parsimonyUPPASS', {'match': [r'^step', r'^callsite', r'^post']}),
                   ('asr.parsimonyUPPASS', {'match': [r'^step', r'^callsite']}),
                   ('acr.parsimonyDOWNPASS', {'match': [r'^callsite']}), ('asr.parsimonyDOWNPASS', {'match': [r'^callsite']}),
-                  ('acr.parsimonyDELTRAN', {'match': [r'^inv', r'^bounds', r'^nil']})],
+                  ('acr.parsimonyDELTRAN', {'match': [r'^inv', r'^bounds', r'^nil']}), ('acr.parsimonyACCTRAN', {'match': [r'^inv', r'^bounds', r'^nil']}),
+                  ('asr.parsimonyDELTRAN', {'match': [r'^inv', r'^bounds', r'^nil']}), ('asr.parsimonyACCTRAN', {'match': [r'^inv', r'^bounds', r'^nil']})],
     'trusted_base': TB_COMMON + ['A-HARTIGAN: the Fitch/Hartigan recurrence yields the minimum number of changes (Hartigan 1973)'],
     'assumptions': A_COMMON,
-    'not_decided': ['optimality itself; the three clauses about per-node state sets of the second pass; rooting independence (corollary of optimality)', 'site-by-site agreement acr/asr (both are proved against the same recurrence)'],
+    'not_decided': ['optimality itself; the down-pass state sets as a whole (the per-child accumulation buffers and targets are proved, the sums are not); DELTRAN/ACCTRAN are proved as the intersection rule per node (and per site) given that node identifiers index distinct rows of the tables, which the recursion does not re-establish; rooting independence (corollary of optimality)', 'site-by-site agreement acr/asr (both are proved against the same recurrence)'],
 }
 
 PROPS['C18'] = {
